@@ -441,3 +441,58 @@ func VerifHarness_C14_fwd_helloverify() {
 	sameBytes("C14.helloverify.fwd.cookie", d.cookie, m.cookie)
 	verifReach("done")
 }
+
+// C14 strictness inside extension blocks: a ClientHello with exactly one known extension, as the real encoder
+// emits it, with ONE arbitrary byte appended inside that extension (all enclosing length fields adjusted): no
+// extension may carry bytes its decoder does not consume.
+//
+//verif:harness props=C14 paths=20000 reach=checked
+func VerifHarness_C14_rev_clienthello_extension_strict() {
+	m := &clientHelloMsg{vers: verifNondetU16("vers"), random: verifNondetBytes("random", 32), compressionMethods: []byte{0}, cipherSuites: []uint16{verifNondetU16("suite")}}
+	which := verifSplitInt("ext", 1, 6)
+	switch which {
+	case 1:
+		m.serverName = "a"
+	case 2:
+		m.ocspStapling = true
+	case 3:
+		m.supportedCurves = []CurveID{CurveID(verifNondetU16("curve"))}
+	case 4:
+		m.supportedSignatureAlgorithms = []SignatureScheme{SignatureScheme(verifNondetU16("sigalg"))}
+	case 5:
+		m.alpnProtocols = []string{"a"}
+	case 6:
+		m.ibsdhClientID = verifNondetBytes("ibsdh", 2)
+	}
+	raw, err := m.marshal()
+	verifAssert("C14.extstrict.marshal", err == nil)
+	var probe clientHelloMsg
+	verifAssert("C14.extstrict.validDecodes", probe.unmarshal(append([]byte(nil), raw...)))
+	// layout: header | version(2) random(32) sidlen(1) [cookie len] suites(2+2) comp(1+1) | extblock len(2) | type(2) len(2) data
+	fixed := vhsHeaderLen + 2 + 32 + 1 + vhsHelloExtra + 2 + 2 + 1 + 1
+	if len(raw) < fixed+6 {
+		verifAssert("C14.extstrict.layout", false)
+		return
+	}
+	bad := append(append([]byte(nil), raw...), verifNondetByte("extraByte"))
+	bump16 := func(off int) {
+		v := int(bad[off])<<8 | int(bad[off+1])
+		v++
+		bad[off], bad[off+1] = byte(v>>8), byte(v)
+	}
+	bump24 := func(off int) {
+		v := int(bad[off])<<16 | int(bad[off+1])<<8 | int(bad[off+2])
+		v++
+		bad[off], bad[off+1], bad[off+2] = byte(v>>16), byte(v>>8), byte(v)
+	}
+	bump24(1) // message length
+	if vhsHeaderLen == 12 {
+		bump24(9) // fragment length
+	}
+	bump16(fixed)     // extension block length
+	bump16(fixed + 4) // this extension's length
+	var d clientHelloMsg
+	ok := d.unmarshal(bad)
+	verifReach("checked")
+	verifAssert("C14.extstrict.trailingByteInExtensionRejected", !ok)
+}
